@@ -10,6 +10,7 @@
 #include "a/list.h"
 #include "a/slist.h"
 #include "a/que.h"
+#include "fault.h"
 
 #define MAXID 16
 #define HUGE_M 1000000
@@ -294,6 +295,86 @@ static a_size to_size(int x)
     if (x == HUGE_M - 1) { return (a_size)-2; }
     return (a_size)x;
 }
+static long last_reqs, n_fault_runs, n_fault_edges;
+static FILE *fault_out;
+static void put_vals(FILE *f, a_que *q)
+{
+    int cnt = 0;
+    fputc('[', f);
+    for (a_list *it = q->head_.next; it != &q->head_ && cnt < 40; it = it->next, ++cnt)
+    {
+        fprintf(f, cnt ? ",%d" : "%d", get_elem((a_byte *)(it + 1), q->siz_));
+    }
+    fputc(']', f);
+}
+static int ring_ok(a_que *q)
+{
+    int cnt = 0;
+    for (a_list *it = q->head_.next; it != &q->head_ && cnt < 64; it = it->next, ++cnt)
+    {
+        if (it->next->prev != it || it->prev->next != it) { return 0; }
+    }
+    return cnt == (int)q->num_ && q->head_.next->prev == &q->head_ && q->head_.prev->next == &q->head_;
+}
+static int fault_que(int const *v, long single, long from)
+{
+    int op = v[1], a1 = v[2], a2 = v[3];
+    int z1 = v[6], z2 = v[7], p1 = v[8], p2 = v[9], n1 = v[10], n2 = v[11], n1b = v[16];
+    int const *s1 = v + 18, *s2 = s1 + n1, *s1b = s2 + n2;
+    a_que q[3];
+    int base_id = f_nextid;
+    long badfree0 = f_badfree;
+    n_addr = 0;
+    build_que(&q[1], z1, s1, n1, p1);
+    build_que(&q[2], z2, s2, n2, p2);
+    FILE *f = fault_out;
+    fprintf(f, "{\"fam\":\"que\",\"op\":\"%s\",\"a1\":%d,\"a2\":%d,\"plan\":\"%s\",\"k\":%ld,\"pre\":{\"mem\":%d,\"siz\":%d,\"seq\":", qop[op], a1, a2,
+            single ? "single" : "from", single ? single : from, n1 + p1, z1);
+    put_seq(f, s1, n1);
+    fputs("},\"live0\":[", f);
+    {
+        int first = 1;
+        for (int i = 0; i < f_nlive; ++i)
+        {
+            if (f_live[i].id > base_id) { fprintf(f, first ? "%d" : ",%d", f_live[i].id); first = 0; }
+        }
+    }
+    fputs("]", f);
+    void *p = NULL;
+    int rc = 0;
+    a_byte keyobj[64];
+    f_begin(single, from);
+#include "que_ops.inc"
+    f_end();
+    int failed = (int)f_failed, ret_fail = (op == 15 || op == 16) ? rc == 4 : p == NULL;
+    fprintf(f, ",\"failed\":%d,\"reqs\":", failed);
+    f_put_log(f);
+    fprintf(f, ",\"fail\":{\"ret_fail\":%d,\"num\":%d,\"mem\":%d,\"siz\":%d,\"seq\":", ret_fail, ring_ok(&q[1]) ? (int)q[1].num_ : -1,
+            (int)(q[1].num_ + q[1].cur_), (int)q[1].siz_);
+    put_vals(f, &q[1]);
+    p = NULL; rc = 0;
+    f_begin(0, 0);
+#include "que_ops.inc"
+    f_end();
+    if ((op == 1 || op == 2 || op == 3 || op == 12) && p) { put_elem((a_byte *)p, q[1].siz_, a2); }
+    int retry_ok = (op == 15 || op == 16) ? rc == 0 : p != NULL;
+    fprintf(f, "},\"retry\":{\"ok\":%d,\"num\":%d,\"mem\":%d,\"seq\":", retry_ok, ring_ok(&q[1]) ? (int)q[1].num_ : -1, (int)(q[1].num_ + q[1].cur_));
+    put_vals(f, &q[1]);
+    fputs("},\"expected\":", f);
+    put_seq(f, s1b, n1b);
+    a_que_dtor(&q[1], NULL);
+    a_que_dtor(&q[2], NULL);
+    fputs(",\"leak\":[", f);
+    int first = 1;
+    for (int i = 0; i < f_nlive; ++i)
+    {
+        if (f_live[i].id > base_id) { fprintf(f, first ? "%d" : ",%d", f_live[i].id); first = 0; }
+    }
+    fprintf(f, "],\"badfree\":%ld}\n", f_badfree - badfree0);
+    ++n_fault_runs;
+    return 0;
+}
+
 static int do_que(int const *v, int n, FILE *fo)
 {
     int op = v[1], a1 = v[2], a2 = v[3], eret = v[4], eval = v[5];
@@ -315,28 +396,10 @@ static int do_que(int const *v, int n, FILE *fo)
     void *p = NULL;
     int rc = 0, rval = 0;
     a_byte keyobj[64];
-    switch (op)
-    {
-    case 1: p = a_que_push_back(&q[1]); break;
-    case 2: p = a_que_push_fore(&q[1]); break;
-    case 3: p = a_que_insert(&q[1], to_size(a1)); break;
-    case 4: p = a_que_pull_back(&q[1]); break;
-    case 5: p = a_que_pull_fore(&q[1]); break;
-    case 6: p = a_que_remove(&q[1], to_size(a1)); break;
-    case 7: p = a_que_at(&q[1], (a_diff)a1); break;
-    case 8: p = a_que_fore(&q[1]); break;
-    case 9: p = a_que_back(&q[1]); break;
-    case 10: a_que_sort_fore(&q[1], cmp_key); break;
-    case 11: a_que_sort_back(&q[1], cmp_key); break;
-    case 12:
-        put_elem(keyobj, (a_size)z1, a2);
-        p = a_que_push_sort(&q[1], keyobj, cmp_key);
-        break;
-    case 13: a_que_swap_(a_que_at(&q[1], a1), a_que_at(&q[1], a2)); break;
-    case 14: a_que_swap(&q[1], &q[2]); break;
-    case 15: rc = a_que_drop(&q[1], NULL); break;
-    case 16: rc = a_que_setz(&q[1], (a_size)a1, NULL); break;
-    }
+    f_begin(0, 0);
+#include "que_ops.inc"
+    f_end();
+    last_reqs = f_req;
     int rid = p ? aid((a_list *)p - 1) : 0;
     if ((op == 1 || op == 2 || op == 3 || op == 12) && p) { put_elem((a_byte *)p, q[1].siz_, a2); }
     if ((op >= 4 && op <= 9) && p) { rval = get_elem((a_byte *)p, q[1].siz_); }
@@ -384,6 +447,12 @@ int main(int argc, char **argv)
         return 2;
     }
     __sanitizer_set_death_callback(on_death);
+    f_install();
+    if (argc > 6)
+    {
+        fault_out = fopen(argv[6], skip_until ? "a" : "w");
+        if (!fault_out) { perror(argv[6]); return 3; }
+    }
     if (argc > 5) { skip_until = atol(argv[5]); }
     FILE *fi = fopen(argv[2], "r");
     if (!fi) { perror(argv[2]); return 3; }
@@ -407,10 +476,23 @@ int main(int argc, char **argv)
         ++n_edges;
         if (n_edges <= skip_until) { continue; }
         FILE *f = fo[(n_edges / 1024) % nb];
+        last_reqs = 0;
         int rc = fam == 0 ? do_list(v, n, f) : fam == 1 ? do_slist(v, n, f) : do_que(v, n, f);
         if (rc) { return rc; }
+        if (fault_out && fam == 2 && last_reqs > 0 && v[1] != 14)
+        {
+            long R = last_reqs;
+            ++n_fault_edges;
+            for (long k = 1; k <= R; ++k)
+            {
+                if ((rc = fault_que(v, k, 0)) != 0) { return rc; }
+                if (k < R && (rc = fault_que(v, 0, k)) != 0) { return rc; }
+            }
+        }
     }
     for (int i = 0; i < nb; ++i) { fclose(fo[i]); }
+    if (fault_out) { fclose(fault_out); }
+    printf("FAULTS {\"edges\":%ld,\"runs\":%ld}\n", n_fault_edges, n_fault_runs);
     printf("SUMMARY {\"edges\":%ld,\"events\":%ld,\"mismatch\":%ld,\"drift\":%ld,\"nontrivial\":%ld,\"ops\":[", n_edges, n_events, n_mismatch, n_drift, n_nontrivial);
     for (int f = 0; f < 3; ++f)
     {
